@@ -41,6 +41,18 @@ static void domain_case(uint32_t S, uint32_t L, int mode, int announce, const in
         /* a refusal is admissible only where the reference server says so (checked in lockstep); additionally a
          * download that fits and is not a partial write must never be refused */
         if (L == S && !(mode == 1 && S > 4)) mc_fail("c02-refused", "conforming download of %u bytes to a %u-byte domain refused with %08X (mode %d, announce %d)", L, S, cl_abort, mode, announce);
+        else {
+            /* the client that was refused goes on with ordinary requests: an expedited download to 2002h and the fitting payload to the same
+             * domain in the same mode - both have to be confirmed and stored (the reference server judges every response on the way) */
+            uint32_t abort0 = cl_abort; int r2, r3 = CL_OK;
+            r2 = cl_exp_dl(0, 0x2002, 0, PAY + 3, 4, 1);
+            if (r2 != CL_OK || memcmp(&V32, PAY + 3, 4) != 0) mc_fail("c02-after-refusal", "after the refusal (%08X) of %u bytes to the %u-byte domain (mode %d, announce %d) an expedited download to 2002h is %s", abort0, L, S, mode, announce, r2 == CL_OK ? "confirmed but not stored" : r2 == CL_ABORT ? "aborted" : cl_err);
+            else if (S > 4 && mode >= 2) {
+                r3 = mode == 2 ? cl_seg_dl(0, 0x2012, 0, PAY, S, announce) : cl_blk_dl(0, 0x2012, 0, PAY, S, announce, 0, 0);
+                if (r3 != CL_OK || memcmp(DomB, PAY, S) != 0) mc_fail("c02-after-refusal", "after the refusal (%08X) of %u bytes to the %u-byte domain (mode %d, announce %d) the fitting download is %s", abort0, L, S, mode, announce, r3 == CL_OK ? "confirmed but not stored" : r3 == CL_ABORT ? "aborted" : cl_err);
+            }
+            cl_abort = abort0;
+        }
     }
     if (OBS.fatal) mc_fail("safety:fatal-error callback invoked", "S=%u L=%u", S, L);
     snprintf(smp, sizeof smp, "domain S=%u L=%u mode=%s announce=%d losses=%d -> %s", S, L, mode == 0 ? "exp(s=1)" : mode == 1 ? "exp(s=0)" : mode == 2 ? "seg" : "blk", announce, nlose, r == CL_OK ? "confirmed" : "aborted");
